@@ -800,7 +800,7 @@ def classify(impl, model, spec) -> int:
     return 2 if impl == model else 3
 
 
-KCLASS_ORDER = ["K_casefold", "K_inhrelalias"]   # the only open class inside the Coq grammar; a, c, d, e, f, h are repaired (c757abc, bd9b8e0), b (b804898), i (280300b)
+KCLASS_ORDER = ["K_casefold"]   # the only open class inside the Coq grammar; a, c, d, e, f, h are repaired (c757abc, bd9b8e0), b (b804898), i (280300b)
 
 
 MAX_REPLAYS = 6
